@@ -10,18 +10,19 @@ from .common import func_params, value_returns, last_return, XLERR, XLT, PY_CMPO
 
 PROPERTY = 'C09'
 EXPLANATION = (
-    'Decided from source: (C09.1) the six rich comparisons of the base value class apply their own Python operator '
-    'to the same pair of keys after normalising the other operand; (C09.2) type precedence Number(=DateTime as '
-    'serial) < Text < Boolean, FALSE < TRUE; (C09.3) a class that overrides a rich comparison overrides all six and '
-    'defers to the precedence mechanism for an operand of another class (known finding F17 for Text); (C09.4) blank '
-    'conversions: every concrete class returns a non-blank value of its own kind, Blank against Blank has a base '
-    'case; (C09.5) the six OP_* operators as the evaluator calls them (registered objects: wrappers, private '
-    'decorators, bodies as written) on every ordered pair of representative non-blank values compute their own '
-    'relation of the one total order with the operands in written order; (C09.6) the whole comparison table - 13 '
-    'representative values of all classes x 13 x six operators - on the real comparison methods against one total '
-    'order, except text-left/non-text-right pairs (F17); (C09.7) constant cells evaluate to the value class of '
-    'their content ("" is a text, None a blank).'
-    ' (C09.6) 22 representative values incl. numeric-looking texts; (C09.8) the ordered comparisons as library calls on native arguments made one after the other in one process, forwards and backwards (functools.lru_cache is modelled as a real memo keyed by hash and equality).')
+    'Decided from source: On the real comparison methods of the value classes, by constant propagation (dunder dispatch, '
+    'casts, blank conversion as written): (C09.1) the six comparisons on numbers, dates and booleans (a text on the right) '
+    'each apply their own relation of the one total order; (C09.2) every number < every text < FALSE < TRUE, a date ranks '
+    'as its serial; (C09.3) a text on the left of a number or boolean is ordered by type, per operator (known finding F17);'
+    ' (C09.4) a blank against every class in both operand positions is the neutral value of that class (known finding F18 '
+    'for DateTime), two blanks are equal; (C09.5) the six OP_* operators as the evaluator calls them (registered objects: '
+    'wrappers, private decorators, bodies as written) on every ordered pair of representative non-blank values compute '
+    'their own relation of the one total order with the operands in written order; (C09.6) the whole comparison table - 13 '
+    'representative values of all classes x 13 x six operators - on the real comparison methods against one total order, '
+    'except text-left/non-text-right pairs (F17); (C09.7) constant cells evaluate to the value class of their content ("" '
+    'is a text, None a blank). (C09.6) 22 representative values incl. numeric-looking texts; (C09.8) the ordered '
+    'comparisons as library calls on native arguments made one after the other in one process, forwards and backwards '
+    '(functools.lru_cache is modelled as a real memo keyed by hash and equality).')
 NOT_DECIDED = 'trichotomy / transitivity over concrete strings and floats'
 TRUSTED = ['tuple comparison semantics of Python for the (precedence, value) keys', 'functools.lru_cache keyed by hash/equality of the arguments (True == 1 == 1.0 unless typed)']
 
